@@ -293,8 +293,15 @@ func verifNewVersionedBuilder(up versioning.MigrationFunc, newVersion versioning
 	return b
 }
 
+// verifCaptureBuilders switches the native seam to the recording builder (only inside
+// VerifC13_RegisteredMigration; every other native run keeps go-ds-versioning's real builder).
+var verifCaptureBuilders bool
+
 func verifVBSeam(real func(versioning.MigrationFunc, versioning.VersionKey) versioned.Builder) func(versioning.MigrationFunc, versioning.VersionKey) versioned.Builder {
-	return verifNewVersionedBuilder
+	if verifCaptureBuilders {
+		return verifNewVersionedBuilder
+	}
+	return real
 }
 
 func (b *verifBuilder) Reversible(down versioning.MigrationFunc) versioned.Builder { return b }
@@ -311,7 +318,9 @@ func (b *verifBuilder) Build() (versioning.VersionedMigration, error)           
 func VerifC13_RegisteredMigration() {
 	verifRegistered = nil
 	self := peer.ID(zz.String("localPeer"))
+	verifCaptureBuilders = true
 	_, err := GetChannelStateMigrations(self)
+	verifCaptureBuilders = false
 	zz.Assert(err == nil, "the migration list builds")
 	zz.Assert(len(verifRegistered) == 2, "two steps are registered")
 	to2, to3 := verifRegistered[0], verifRegistered[1]
